@@ -200,7 +200,7 @@ class Check(core.PropertyCheck):
 
     def _constants(self, r):
         return {"World": tla_world(r["world"]), "Configs": frozenset(tuple(c) for c in r["configs"]),
-                "ExtAddrs": frozenset(r["ext"]), "Alone": frozenset(r["alone"]), "Dests": frozenset(r.get("dests", [])), "Started": bool(r["started"]), "Ops": frozenset(r["ops"]),
+                "ExtAddrs": frozenset(r["ext"]), "Alone": frozenset(r["alone"]), "Dests": frozenset(r.get("dests", [])), "Started": bool(r["started"]), "Ops": frozenset(r["ops"]), "CloseOnFail": True,
                 "MaxOps": r["maxops"], "MaxGen": 2 * r["maxops"] + 6}
 
     def model_constants(self, tier):
@@ -264,6 +264,12 @@ class Check(core.PropertyCheck):
                 mb.run = r
                 mb.behs, _ = ctx.simulate(self.MODEL, self._constants(r), num=1200, depth=100, tag="sim" + r["tag"], timeout=1800)
                 out.append(mb)
+            if not ctx.quick and r["tag"] == "_reconf":
+                # design level: the code before /repo 05259bb1c (bound servers stay open when a later bind fails) is rejected
+                md = self._model_check(ctx, dict(self._constants(r), CloseOnFail=False), "_leak", dump=False)
+                if not any(b and b[0] == "X02.socket_leak" for b in md.bad):
+                    raise core.MachineryError("X02: the monitor does not reject the model of the code before the repair (F1)")
+                ctx.notes["design_unrepaired_listen_rejected"] = {"states": md.states, "bad": md.bad[:4]}
         return out
 
     def scenarios(self, ctx, models):
